@@ -1142,6 +1142,9 @@ class Interp:
         return mk("tuple", *[self.sym(v) for v in vals])
 
     def ex_List(self, n):
+        if not n.elts:
+            # an empty list literal is a fresh mutable accumulator: one object per site
+            return mk("list", tag=self.site(n))
         return mk("list", *[self.sym(self.eval(e)) for e in n.elts])
 
     def ex_Set(self, n):
